@@ -1,6 +1,7 @@
 package c16
 
 import (
+	"strconv"
 	"fmt"
 	"strings"
 
@@ -71,6 +72,51 @@ type lpara struct {
 	// (style:default-outline-level in its own definition, or the level in its built-in
 	// name) - false: only a style above it in the parent-style-name chain does.
 	StyleOwn bool
+	// odt h: the text of the text:outline-level attribute when it is not the plain decimal
+	// of Level: "omit" = no attribute at all; another spelling of the same number ("03");
+	// or, with NoOwnLevel, a text that is no level 1..10 ("", "0", "11", "x", "-2", "2.5").
+	RawOutline string
+	// odt h: the heading states no level itself (text:outline-level absent or no level
+	// 1..10; the attribute is optional up to ODF 1.1, "headings without a level attribute
+	// are assumed to be at level 1", and required from 1.2 on). Level then only picks the
+	// paragraph style; what is demanded is a heading, in place, at level 1 or at the level
+	// the definition chain of its paragraph style says (see levelOK).
+	NoOwnLevel bool
+	// odt p: the plain paragraph <text:p> is written in a heading style: one of builtin,
+	// custom, inherited, inherited2, name (the style of level Level, as for a heading of
+	// that Via) or family (the family style Fam). A text:p is a paragraph whatever its
+	// style (ODF 1.2 part 1, 5.1.3; style:default-outline-level is for editors, 19.470).
+	HStyle string
+}
+
+// levelOK: is l a level the heading may be presented at. A heading that says its level
+// (text:outline-level in 1..10) has that level, whatever its style says. One that does not
+// is at level 1 (the default of the format up to ODF 1.1) or at the level of its paragraph
+// style (own or inherited default outline level, or the built-in name); nothing else.
+func (p *lpara) levelOK(l int) bool {
+	if !p.NoOwnLevel {
+		return l == p.Level
+	}
+	return l == 1 || p.Via != "outline" && l == p.Level
+}
+
+// noLevelTexts: attribute values of text:outline-level that are no level 1..10
+// ("omit" = the attribute is left out).
+var noLevelTexts = []string{"omit", "omit", "", "0", "11", "x", "-2", "2.5"}
+
+// unlevel makes the odt heading one that states no level itself (now and then), or
+// respells its level.
+func (p *lpara) unlevel(r *hx.Rng) {
+	switch k := r.Intn(12); {
+	case k < 2:
+		p.NoOwnLevel, p.RawOutline = true, hx.Pick(r, noLevelTexts)
+		p.StyleLevel, p.StyleOwn = 0, false
+		if p.Level == 10 {
+			p.Level = 9
+		}
+	case k == 2:
+		p.RawOutline = "0" + strconv.Itoa(p.Level)
+	}
 }
 
 // styleLevel: the level that picks the paragraph style of the heading.
@@ -317,6 +363,8 @@ func (d *ldoc) genFamilyHeading(r *hx.Rng) *lpara {
 	case (s.Via != "family" || s.Own != 0) && r.Chance(1, 4):
 		// ... than the one its style carries itself
 		p.StyleLevel, p.StyleOwn, p.Level = s.Level, true, otherLevel(r, s.Level)
+	default:
+		p.unlevel(r)
 	}
 	return p
 }
@@ -423,6 +471,13 @@ func (d *ldoc) genPara(r *hx.Rng) *lpara {
 			p.Out9 = r.Chance(1, 6)
 		}
 	}
+	if d.Format == "odt" && d.Styles && r.Chance(1, 6) {
+		// a text:p written in a heading style (or in a style derived from one)
+		p.Via, p.HStyle, p.Level = "", hx.Pick(r, []string{"builtin", "custom", "inherited", "inherited2", "name"}), r.Range(1, 9)
+		if d.Fam != nil && r.Bool() {
+			p.HStyle, p.Level, p.Fam = "family", 0, hx.Pick(r, d.Fam.Styles).ID
+		}
+	}
 	return p
 }
 
@@ -460,6 +515,9 @@ func (d *ldoc) genHeading(r *hx.Rng) *lpara {
 		if d.Format == "docx" && r.Chance(1, 4) {
 			p.Jc = hx.Pick(r, []string{"center", "right", "both"})
 		}
+	}
+	if d.Format == "odt" {
+		p.unlevel(r)
 	}
 	return p
 }
@@ -945,6 +1003,9 @@ func (d *ldoc) canon() string {
 	for _, bl := range d.Blocks {
 		if bl.P != nil {
 			fmt.Fprintf(&b, "%s/%d~%d%v%s%v/%s%s%s%s%v/%d/%q;", bl.P.Kind, bl.P.Level, bl.P.StyleLevel, bl.P.StyleOwn, bl.P.RawLevel, bl.P.NoPara, bl.P.Via, bl.P.Fam, bl.P.Plain, bl.P.Jc, bl.P.Out9, bl.P.NumID, bl.P.wantText())
+			if bl.P.NoOwnLevel || bl.P.RawOutline != "" || bl.P.HStyle != "" {
+				fmt.Fprintf(&b, "{%v %q %s}", bl.P.NoOwnLevel, bl.P.RawOutline, bl.P.HStyle)
+			}
 			for _, ru := range bl.P.Runs {
 				b.WriteString(ru.Wrap + ",")
 			}
